@@ -1,0 +1,36 @@
+//go:build verif
+
+package runningstatus
+
+// Contracts for the deductive verifier in /verif (govc). Comment-only.
+//
+// The interfaces of this internal package are only implemented here (the package cannot be imported from
+// outside the module), so method calls on them are executed per dynamic type.
+//@ closed runningstatus.SMFWriter runningstatus.Reader
+
+// running status of an SMF track (SMF 1.0: cancelled by any meta or sysex event): the writer elides the
+// status byte iff the message is a channel message with the same status as the previous event of the chunk
+//@ func (*smfwriter).Write
+//@ requires len(raw) >= 1
+//@ modifies w.status
+//@ ensures [P:C03] (raw[0] >= 0x80 && raw[0] <= 0xEF) ==> w.status == raw[0]
+//@ ensures [P:C03] !(raw[0] >= 0x80 && raw[0] <= 0xEF) ==> w.status == 0
+//@ ensures [P:C03] (raw[0] >= 0x80 && raw[0] <= 0xEF && raw[0] == old(w.status)) ==> (ref(result) == ref(raw) && off(result) == off(raw) + 1 && len(result) == len(raw) - 1)
+//@ ensures [P:C03] !(raw[0] >= 0x80 && raw[0] <= 0xEF && raw[0] == old(w.status)) ==> (ref(result) == ref(raw) && off(result) == off(raw) && len(result) == len(raw))
+
+//@ func (*smfwriter).ResetStatus
+//@ modifies w.status
+//@ ensures [P:C03] w.status == 0
+
+// the reader side: cleared by FF, F0, F7 only; set by a channel status byte; kept across data bytes
+//@ func (*smfreader).Read
+//@ modifies r.reader.status
+//@ ensures [P:C02] (canary == 0xFF || canary == 0xF0 || canary == 0xF7) ==> (status == 0 && changed && r.reader.status == 0)
+//@ ensures [P:C02] (canary >= 0x80 && canary <= 0xEF) ==> (status == canary && changed && r.reader.status == canary)
+//@ ensures [P:C02] !(canary == 0xFF || canary == 0xF0 || canary == 0xF7 || (canary >= 0x80 && canary <= 0xEF)) ==> (status == old(r.reader.status) && !changed && r.reader.status == old(r.reader.status))
+
+//@ func NewSMFWriter
+//@ ensures [P:C03] typeof(result) == typeid(*smfwriter) && asptr(result, smfwriter).status == 0 && fresh(asptr(result, smfwriter))
+
+//@ func NewSMFReader
+//@ ensures [P:C02] typeof(result) == typeid(*smfreader) && asptr(result, smfreader).reader.status == 0
